@@ -153,7 +153,7 @@ def check_table(rec, otab, scores, maxi, starts, ends, m, name, inp, where):
             sel_inner.append(rep)
         else:
             rec.violation(KEY_COLUMNS, f"{where}: candidate [{s},{e}) reports the inner interval ({maxi[i][0]}, {maxi[i][1]}) in the argmax columns, "
-                          f"the maximum {best!r} is attained at {arg}", "C09.table.argmax", inp)
+                          f"the maximum {best!r} is attained at {arg}", f"C09.table.argmax@{where}", inp)
             sel_inner.append(arg[0])
             if len(arg) > 1 or len([v for v in vals.values() if O.near(v, best)]) > 1:
                 usable = False
@@ -299,13 +299,30 @@ def hyper(n, ms, gs, extra_M=(200,)):
 def run(tier="quick", seed=0, repo="/repo"):
     use_repo(repo)
     rec = O.Rec(target=TARGET)
+    O.reset_hangs()
+    bound = {}
+    try:
+        _enumerate(rec, tier, seed, bound)
+    except O.Abort:
+        bound["text"] = bound.get("text", "") + " [enumeration stopped early: calls into the real code did not terminate]"
+    return rec.result(RULE, bound.get("text", "stopped before the bound was fixed"), exhaustive=False)
+
+
+def _enumerate(rec, tier, seed, bound_out):
     rng = np.random.default_rng(seed)
     quick = tier == "quick"
     gs = [1.1, 1.5, 2.0] if quick else [1.01, 1.1, 1.25, 1.5, 1.75, 2.0]
     ms = [1, 2, 3] if quick else [1, 2, 3, 4]
+    span = 12 if quick else 20
+    n0 = 5
+    n_run = range(2, 9) if quick else range(2, 12)
+    ns_b = [5, 7, 8] if quick else [4, 5, 6, 7, 8, 9, 10]
+    ns_d = [2, 3, 4, 5, 6, 8] if quick else list(range(2, 12))
+    bound_out["text"] = (f"inner: start in (0,1,3), length <= {span}, m <= {5 if quick else 8}; greedy kernel: all <=3-subsets of sub-intervals (length >= 3) of "
+                         f"[0,{n0}] + random systems; run: table scores n<={max(n_run)} with m in {ms}, M in 2m..n+2, g in {gs}; built-in n in {ns_b}, p<=2; "
+                         f"detector: n in {ns_d}")
 
     # (1) admissible inner intervals, exhaustive
-    span = 12 if quick else 20
     for s in (0, 1, 3):
         for e in range(s, s + span + 1):
             for m in range(1, 6 if quick else 9):
@@ -313,7 +330,6 @@ def run(tier="quick", seed=0, repo="/repo"):
                 rec.case(("inner", s, e, m), check_inner(rec, inp), inp if (s, e, m) == (1, 7, 2) else None)
 
     # (2) greedy kernel, exhaustive on explicit candidate systems over [0,5]
-    n0 = 5
     subs = [(s, e) for s in range(n0 + 1) for e in range(s + 3, n0 + 1)]
     for K in (1, 2, 3):
         for combo in itertools.combinations(subs, K):
@@ -351,7 +367,6 @@ def run(tier="quick", seed=0, repo="/repo"):
             rec.case(("gr", it, th), nt, dict(inp, thresholds=[th]) if it == 0 and nt else None)
 
     # (3) run_circular_binseg
-    n_run = range(2, 9) if quick else range(2, 12)
     for n in n_run:
         X0 = np.zeros((n, 1))
         for m, M, g in hyper(n, ms, gs, extra_M=()):
@@ -364,7 +379,6 @@ def run(tier="quick", seed=0, repo="/repo"):
                 for i, nt in enumerate(check_run(rec, inp)):
                     rec.case(("run", "table", style, q, n, m, M, g, i), nt, dict(inp, threshold_index=i) if (n, m, M, j) == (8, 2, 8, 0) and i == 1 else None)
     kinds = ("bump", "two", "none", "jump")
-    ns_b = [5, 7, 8] if quick else [4, 5, 6, 7, 8, 9, 10]
     for n in ns_b:
         for p in (1, 2):
             for name, (_, msize, _) in O.builtin_local_scores(p).items():
@@ -385,7 +399,6 @@ def run(tier="quick", seed=0, repo="/repo"):
                                 rec.case(("run", name, n, p, m, M, g, kind, i), nt, None)
 
     # (4) detector class
-    ns_d = [2, 3, 4, 5, 6, 8] if quick else list(range(2, 12))
     for n in ns_d:
         for p in ((1,) if quick and n != 8 else (1, 2)):
             specs = [{"kind": "table", "seed": seed + n, "q": p, "style": "perm"}, {"kind": "table", "seed": seed + n + 1, "q": 1, "style": "signed"}]
@@ -423,9 +436,6 @@ def run(tier="quick", seed=0, repo="/repo"):
                                     d["Xfit"] = O.gen_data(rng, n + 1, p, "none")
                                 inf2 = check_detector(rec, d)
                                 rec.case(("det", str(spec), n, p, m, M, g, "tuned", level), inf2["nt"], None)
-    bound = (f"inner: start in (0,1,3), length <= {span}, m <= {5 if quick else 8}; greedy kernel: all <=3-subsets of sub-intervals (length >= 3) of [0,{n0}] + random "
-             f"systems; run: table scores n<={max(n_run)} with m in {ms}, M in 2m..n+2, g in {gs}; built-in n in {ns_b}, p<=2; detector: n in {ns_d}")
-    return rec.result(RULE, bound, exhaustive=False)
 
 
 def replay(inp, repo="/repo"):
